@@ -11,7 +11,7 @@ META = {
                    "differs from (x-b)/c by less than 1/2 - u(|p|+1) in the worst case, so the result is one of the two neighbouring grid points and the "
                    "decoded value differs from x by at most half a step plus the stated slack; monotonicity follows from monotonicity of each step. "
                    "The carrier step (put keeps the low w bits, parse returns them sign-extended / sign-magnitude per carrier) is the abstract "
-                   "interpretation of C07 (B-sem, S-sem), imported so that a grid point cannot wrap in transport.",
+                   "interpretation of C07 (B-sem, S-sem), imported so that a grid point cannot wrap in transport. The rounding template is required for every float field (a truncating cast is exact on the grid but off by up to a step for arbitrary reals).",
     "assumptions": ["behaviour outside the representable range is only required not to panic (C09)"],
 }
 
